@@ -1163,6 +1163,11 @@ package lisp
 // they are now, under the same names, into the current package.
 //@ func (*LEnv).UsePackage
 //@   requires rtOK(env) && name != nil && env.Runtime.Package != nil
+//@   ghost    nexget : int
+//@   ghost    nexput : int
+//@   counts   nexget Get
+//@   counts   nexput Put
+//@   loop 1 (rangeindex) invariant [every-export-that-is-looked-up-is-bound] nexput - old(nexput) == nexget - old(nexget)
 //@   assert-at Get [looks-the-export-up-in-the-named-package] arg0 == env.Runtime.Registry.packages[name.Str] && arg1.Str == arg0.externals[loopvar(1) + 1]
 //@   assert-at Put [binds-the-same-name-to-the-looked-up-value-in-the-current-package] arg0 == env.Runtime.Package && arg1.Str == env.Runtime.Registry.packages[name.Str].externals[loopvar(1) + 1] && arg2 == ret("Get", 0)
 //@   property C08
